@@ -27,7 +27,11 @@ def sweep(rep, conn, transport, handle, cid, lengths):
     with net.World(t, io_budget=10**9) as w:
         d = pycomm3.CIPDriver("10.0.0.1/bp/2")
         call(d.open)
-        kw = dict(connected=True) if transport == "connected" else dict(connected=False, unconnected_send=(transport == "ucsend"), route_path=(True if transport == "ucsend" else False))
+        if transport == "connected-u":
+            # contradictory but accepted keyword combination: `connected` left at True together with unconnected_send=True
+            kw = dict(unconnected_send=True, route_path=True)
+        else:
+            kw = dict(connected=True) if transport == "connected" else dict(connected=False, unconnected_send=(transport == "ucsend"), route_path=(True if transport == "ucsend" else False))
         for n in lengths:
             m0 = len(w.messages)
             e0 = len(t.events)
@@ -78,6 +82,8 @@ def sweep(rep, conn, transport, handle, cid, lengths):
 
 
 def lengths_for(conn, transport, tier):
+    if transport == "connected-u":
+        return list(range(0, 40))
     limit = (conn - 12) if transport == "connected" else 480
     if conn == 500 or transport != "connected":
         return list(range(0, limit + 1))
@@ -99,6 +105,7 @@ def shards(tier, seed):
                 c = hs[(i * 5 + k + 2 + seed) % len(hs)]
                 sh.append(("sweep", conn, tr, h, c))
             sh.append(("sweep", conn, tr, hs[k % len(hs)], 0))  # the target grants connection id 0
+    sh += [("sweep", conn, "connected-u", hs[(conn // 100 + seed) % len(hs)], hs[(conn // 50 + 3) % len(hs)]) for conn in (500, 4000)]
     sh.append(("corpus",))
     sh += [("corpus", regime) for regime in ("3/4", "1/2", "1", "tail1", "tail3", "tail21", "tail23")]  # the same corpus with every send() accepting only part of the frame
     # the call histories of C10 (one transport fault at every I/O index): frames after a failed close / reopen etc.
